@@ -140,6 +140,116 @@ let arg_strs (a : string array) (i : int) =
   let n = arg_int a.(i) in
   (List.init n (fun k -> arg_str a.(i + 1 + k)), i + 1 + n)
 
+(* ---------- header checks (C15) ---------- *)
+let opt_str (s : string) : n list option = if s = "n" then None else Some (arg_str s)
+let hfield_s = function
+  | FMime -> "mime-version" | FCte -> "content-transfer-encoding" | FContentType -> "content-type"
+  | FProject -> "project-id-version" | FReport -> "report-msgid-bugs-to" | FTranslator -> "last-translator"
+  | FTeam -> "language-team"
+let str_of_ascii (s : string) : n list = List.init (String.length s) (fun i -> n_of_zarith (ZA.of_int (Char.code s.[i])))
+let hdiag_s (d : diag) : string =
+  let j = String.concat " " in
+  match d with
+  | DBoilerplateComment l -> j ["boilerplate-in-initial-comments"; out_str l]
+  | DDuplicateHeaderEntry -> "duplicate-header-entry"
+  | DEmptyMsgidRefs refs -> j ("empty-msgid-message-with-source-code-references" :: List.map out_str refs)
+  | DEmptyMsgidPlural -> "empty-msgid-message-with-plural-forms"
+  | DFuzzyHeader -> "fuzzy-header-entry"
+  | DUnexpectedFlag (f, h) -> j (["unexpected-flag-for-header-entry"; out_str f] @ (if h then ["=>"; out_str (str_of_ascii "fuzzy")] else []))
+  | DDuplicateFlag f -> j ["duplicate-flag-for-header-entry"; out_str f]
+  | DDistantHeader -> "distant-header-entry"
+  | DUnusualChars cs -> j ["unusual-character-in-header-entry"; out_str cs]
+  | DConflictMarker l -> j ["conflict-marker-in-header-entry"; out_str l]
+  | DStrayLine l -> j ["stray-header-line"; out_str l]
+  | DUnknownField (k, h) -> j (["unknown-header-field"; out_str k] @ (match h with Some x -> ["=>"; out_str x] | None -> []))
+  | DDuplicateField k -> j ["duplicate-header-field"; out_str k]
+  | DDuplicateDedicated f -> "duplicate-header-field-" ^ hfield_s f
+  | DNoField f -> "no-" ^ hfield_s f ^ "-header-field"
+  | DInvalidMimeVersion v -> j ["invalid-mime-version"; out_str v]
+  | DInvalidCte v -> j ["invalid-content-transfer-encoding"; out_str v]
+  | DInvalidContentType (v, e) ->
+    j ["invalid-content-type"; out_str v; "=>";
+       out_str (str_of_ascii "text/plain; charset=" @ (match e with Some x -> x | None -> str_of_ascii "<encoding>"))]
+  | DBoilerplateContentType v -> j ["boilerplate-in-content-type"; out_str v]
+  | DUnknownEncoding e -> j ["unknown-encoding"; out_str e]
+  | DNonAsciiCompatible e -> j ["non-ascii-compatible-encoding"; out_str e]
+  | DNonPortable (e, p) -> j (["non-portable-encoding"; out_str e] @ (match p with Some x -> ["=>"; out_str x] | None -> []))
+  | DUnrepresentable (e, cs) -> j ("unrepresentable-characters" :: out_str e :: List.map out_str cs)
+  | DBoilerplateProject v -> j ["boilerplate-in-project-id-version"; out_str v]
+  | DNoPackageName v -> j ["no-package-name-in-project-id-version"; out_str v]
+  | DNoVersion v -> j ["no-version-in-project-id-version"; out_str v]
+  | DInvalidReport v -> j ["invalid-report-msgid-bugs-to"; out_str v]
+  | DBoilerplateReport v -> j ["boilerplate-in-report-msgid-bugs-to"; out_str v]
+  | DInvalidTranslator v -> j ["invalid-last-translator"; out_str v]
+  | DBoilerplateTranslator v -> j ["boilerplate-in-last-translator"; out_str v]
+  | DInvalidTeam v -> j ["invalid-language-team"; out_str v]
+  | DBoilerplateTeam v -> j ["boilerplate-in-language-team"; out_str v]
+  | DTeamEqualsTranslator (t, tr) -> j ["language-team-equal-to-last-translator"; out_str t; out_str tr]
+let hdiags_s ds = if ds = [] then "-" else String.concat " | " (List.map hdiag_s ds)
+
+(* a cursor over the argument array *)
+let hdr_oracles (a : string array) (pos : int ref) : oracles =
+  let next () = let s = a.(!pos) in incr pos; s in
+  let table rd =
+    let k = arg_int (next ()) in
+    let rec go i acc = if i >= k then List.rev acc else (let key = next () in let v = rd () in go (i + 1) ((key, v) :: acc)) in
+    go 0 [] in
+  let lower = table (fun () -> arg_str (next ())) in
+  let cfuzzy = table (fun () -> arg_bool (next ())) in
+  let cfield = table (fun () -> opt_str (next ())) in
+  let paddr = table (fun () -> arg_str (next ())) in
+  let url = table (fun () -> match next () with "0" -> UScheme | "1" -> UNoScheme | _ -> URaise) in
+  let enc = table (fun () -> match next () with
+      | "u" -> EUnknown
+      | _ -> let ac = arg_bool (next ()) in let po = arg_bool (next ()) in let pr = opt_str (next ()) in EKnown (ac, po, pr)) in
+  let unrep = table (fun () -> let k = arg_int (next ()) in List.init k (fun _ -> ()) |> List.map (fun () -> arg_str (next ()))) in
+  let look name tbl (s : n list) =
+    match List.assoc_opt (out_str s) tbl with Some v -> v | None -> failwith ("oracle-miss " ^ name ^ " " ^ out_str s) in
+  { o_word = (fun c -> in_ranges re_word_ranges c);
+    o_digit = (fun c -> in_ranges re_digit_ranges c);
+    o_space = (fun c -> in_ranges re_space_ranges c);
+    o_lower = look "lower" lower;
+    o_close_fuzzy = look "close_fuzzy" cfuzzy;
+    o_close_field = look "close_field" cfield;
+    o_parseaddr = look "parseaddr" paddr;
+    o_urlscheme = look "urlscheme" url;
+    o_enc = look "enc" enc;
+    o_unrep = look "unrep" unrep }
+let ucd_oracles : oracles =
+  let miss name = (fun _ -> failwith ("oracle-miss " ^ name)) in
+  { o_word = (fun c -> in_ranges re_word_ranges c);
+    o_digit = (fun c -> in_ranges re_digit_ranges c);
+    o_space = (fun c -> in_ranges re_space_ranges c);
+    o_lower = miss "lower"; o_close_fuzzy = miss "close_fuzzy"; o_close_field = miss "close_field";
+    o_parseaddr = miss "parseaddr"; o_urlscheme = miss "urlscheme"; o_enc = miss "enc"; o_unrep = miss "unrep" }
+
+let hdr_op (a : string array) : string =
+  let pos = ref 0 in
+  let next () = let s = a.(!pos) in incr pos; s in
+  let template = arg_bool (next ()) in
+  let comment = arg_str (next ()) in
+  let ne = arg_int (next ()) in
+  let rec entries i acc =
+    if i >= ne then List.rev acc else begin
+      let h = arg_bool (next ()) in
+      let o = arg_bool (next ()) in
+      let p = arg_bool (next ()) in
+      let ms = opt_str (next ()) in
+      let p0 = opt_str (next ()) in
+      let nocc = arg_int (next ()) in
+      let occ = List.init nocc (fun _ -> ()) |> List.map (fun () -> let x = arg_str (next ()) in let y = arg_str (next ()) in (x, y)) in
+      let nf = arg_int (next ()) in
+      let fl = List.init nf (fun _ -> ()) |> List.map (fun () -> arg_str (next ())) in
+      entries (i + 1) ({ e_header = h; e_obsolete = o; e_occurrences = occ; e_has_plural = p; e_msgstr = ms; e_plural0 = p0; e_flags = fl } :: acc)
+    end in
+  let es = entries 0 [] in
+  let o = hdr_oracles a pos in
+  match hdr_check o header_fields dedicated_fields special_exact_or_sub special_sub_only
+          { h_template = template; h_comment = comment; h_entries = es } with
+  | Ok ds -> hdiags_s ds
+  | Err _ -> "err"
+  | Crash c -> "crash " ^ crash_name c
+
 (* ---------- dispatch ---------- *)
 let handle (op : string) (a : string array) : string =
   match op with
@@ -247,6 +357,18 @@ let handle (op : string) (a : string array) : string =
      | Ok (x, y) -> "ok " ^ dtags_s x ^ " || " ^ dtags_s y
      | Err e -> "err " ^ derr_s e
      | Crash c -> "crash " ^ crash_name c)
+  | "hdr" -> hdr_op a
+  | "hdr_ct" -> (match content_type_match ucd_oracles (arg_str a.(0)) with
+                 | None -> "none" | Some (p, t) -> (if p then "1 " else "0 ") ^ out_str t)
+  | "hdr_parse" -> String.concat " " (List.map (function HField (k, v) -> "f " ^ out_str k ^ " " ^ out_str v | HStray l -> "x " ^ out_str l)
+                                        (parse_header (arg_str a.(0))))
+  | "hdr_special" -> if is_special special_exact_or_sub special_sub_only (arg_str a.(0)) then "1" else "0"
+  | "hdr_comment" -> if comment_line_boilerplate ucd_oracles (arg_bool a.(0)) (arg_str a.(1)) then "1" else "0"
+  | "hdr_unusual" -> out_str (unusual_chars ucd_oracles (arg_str a.(0)))
+  | "hdr_conflict" -> if is_conflict_marker (arg_str a.(0)) then "1" else "0"
+  | "hdr_splitlines" -> String.concat " " (List.map out_str (splitlines (arg_str a.(0))))
+  | "hdr_project" -> hdiags_s (project_diags ucd_oracles (arg_str a.(0)))
+  | "hdr_sort" -> String.concat " " (List.map out_str (sort_u (List.map arg_str (Array.to_list a))))
   | _ -> "unknown-op " ^ op
 
 let () =
